@@ -450,6 +450,11 @@ func (w *World) RelayContent(t string, l *Ledger) (*wire.MsgTx, bool) {
 		return spend([]*Coin{c}, out(c.Value-fee, w.SPk)), true
 	case "cf":
 		p := w.firstRelayed("sp")
+		if p == nil {
+			// no single-input spend was relayed: conflict with the FIRST input of the two-input
+			// spend, which leaves its second input to be contested separately (block "c2")
+			p = w.firstRelayed("s2")
+		}
 		if p == nil || w.onChain(p, l) || w.lastRelayed("cf") != nil {
 			return nil, false
 		}
@@ -575,6 +580,19 @@ func (w *World) PendingBlockContent(t string, l *Ledger) ([]*wire.MsgTx, bool) {
 			return nil, false
 		}
 		return append(txs, spend([]*Coin{c}, out(c.Value-2*fee, w.S2Pk))), true
+	case "c2":
+		// confirm a conflict on the SECOND input of the relayed two-input wallet spend: that
+		// spend is purged, while another pending spender of its first input (a relayed "cf")
+		// stays pending and keeps that coin flagged
+		p := w.firstRelayed("s2")
+		if p == nil || w.onChain(p, l) || len(p.TxIn) < 2 {
+			return nil, false
+		}
+		c := l.Coins[p.TxIn[1].PreviousOutPoint]
+		if c == nil || c.SpentAt != 0 {
+			return nil, false
+		}
+		return append(txs, spend([]*Coin{c}, out(c.Value-4*fee, w.S2Pk))), true
 	case "ci":
 		p := w.firstRelayed("in")
 		if p == nil || w.onChain(p, l) {
